@@ -73,20 +73,18 @@ func (v *ScriptView) GenerateDatabaseScriptCreate(tableMap map[string]*sysl.Type
 	sort.Ints(depthsFound)
 	for _, depth := range depthsFound {
 		tableNames := completedTableDepthMap[depth]
-		var lineNumbers []int32
-		var entityNames []string
-		lineNumberMap := map[int32]string{}
-		for _, tableName := range tableNames {
-			table := tableMap[tableName]
-			lineNumber := table.GetSourceContext().GetStart().GetLine() //nolint:staticcheck
-			lineNumberMap[lineNumber] = tableName
-			lineNumbers = append(lineNumbers, lineNumber)
+		// Tables of one depth are written in source line order. Tables from different files can start on the same
+		// line, so the name breaks ties (a line -> name map would drop one of them and write the other twice).
+		lineOf := func(tableName string) int32 {
+			return tableMap[tableName].GetSourceContext().GetStart().GetLine() //nolint:staticcheck
 		}
-		sort.Slice(lineNumbers, func(i, j int) bool { return lineNumbers[i] < lineNumbers[j] })
-		for _, lineNo := range lineNumbers {
-			entityName := lineNumberMap[lineNo]
-			entityNames = append(entityNames, entityName)
-		}
+		entityNames := append([]string{}, tableNames...)
+		sort.Slice(entityNames, func(i, j int) bool {
+			if li, lj := lineOf(entityNames[i]), lineOf(entityNames[j]); li != lj {
+				return li < lj
+			}
+			return entityNames[i] < entityNames[j]
+		})
 		for _, entityName := range entityNames {
 			entityType := tableMap[entityName]
 			if relEntity := entityType.GetRelation(); relEntity != nil {
